@@ -175,6 +175,11 @@ func (m *AWSKMS) EncryptKey(ctx context.Context, keyBytes []byte) ([]byte, error
 		kekEn.KMSKEKs = append(kekEn.KMSKEKs, k)
 	}
 
+	if len(kekEn.KMSKEKs) == 0 {
+		// without a single regional KEK nobody could ever unwrap the key again
+		return nil, errors.New("unable to encrypt the data key in any region")
+	}
+
 	b, err := json.Marshal(kekEn)
 	if err != nil {
 		return nil, err
